@@ -54,7 +54,18 @@ type c19tx struct {
 	Gas int64 `json:"gas"`
 }
 
+// alias: every fourth queued transaction (index 3, 7, ..) carries the identity
+// prefix and sender of the one two places before it - the sequencer contract admits
+// the same (prefix, sender) more than once, and each occurrence is a selected entry.
+func alias(i int) int {
+	if i%4 == 3 {
+		return i - 2
+	}
+	return i
+}
+
 func txPrefix(i int) []byte {
+	i = alias(i)
 	p := make([]byte, 32)
 	// neither ascending nor descending in queue order (every window of three
 	// consecutive transactions is non-monotone), never all zero
@@ -63,7 +74,7 @@ func txPrefix(i int) []byte {
 	return p
 }
 
-func txSender(i int) common.Address { return kpx.Addr(100 + (i*5)%7) }
+func txSender(i int) common.Address { i = alias(i); return kpx.Addr(100 + (i*5)%7) }
 
 func txIdentity(i int) identitypreimage.IdentityPreimage {
 	return append(append([]byte{}, txPrefix(i)...), txSender(i).Bytes()...)
